@@ -44,7 +44,11 @@ def gen_case(rs, tier, prop="C19"):
     rng = W.stream(rs, "design")
     krng = W.stream(rs, "knobs")
     cfg = gen.swarm(krng, tier)
-    cfg["kinds"] = [k for k in cfg["kinds"] if k != "latinsquare"] or ["atmost"]
+    if W.stream(rs, "latin").random() < 0.7:
+        cfg["kinds"] = [k for k in cfg["kinds"] if k != "latinsquare"] or ["atmost"]
+    elif W.stream(rs, "latin2").random() < 0.5:
+        cfg["kinds"] = ["latinsquare"]
+        cfg["n_constraints"] = max(1, cfg["n_constraints"])
     if krng.random() < 0.5:
         cfg["weights"] = True
     ast = gen.gen_cross_design(rng, cfg, tier)
@@ -257,6 +261,28 @@ def run_history(case):
                             obs["first_invalid"] = True      # invalid from the start: C01/C04's business, not a history effect
                         if bad and obs["synth_ok"] > 1 and not obs.get("first_invalid"):
                             obs["c19"].append(("C19/later-sequence-invalid/" + common.invalid_tail(m, bad), "op %d: %s" % (oi, bad[:2])))
+        # --- at the end of the history: the block answers as a block built just now from fresh objects does.  Under the
+        # lexmin/lexmax peers the answer to IterateSATGen is a function of the formula alone, so the two lists are equal
+        # whatever the design (no reference semantics needed, LatinSquare and the other documentation gaps included).
+        if case["knobs"]["peer"] in ("lexmin", "lexmax") and not case.get("faults") and obs["synth_ok"] >= 1:
+            try:
+                with common.time_limit(6):
+                    w.peer_calls_cap = w.counters.get("peer.solve", 0) + 40
+                    twin = build.Builder(ast, continuous_env=w).block(ast["block"])
+                    r_used, e_used = common.synth(w, blk, "IterateSATGen", 3)
+                    r_twin, e_twin = common.synth(w, twin, "IterateSATGen", 3)
+                if e_used is None and e_twin is None:
+                    w.count("end-of-history-twin-probe")
+                    cont = set(f["name"] for f in ast["factors"] if f["kind"] == "continuous")
+                    proj = lambda rr: [{str(k): list(map(str, v)) for k, v in e.items() if k not in cont} for e in rr]
+                    if proj(r_used) != proj(r_twin):
+                        obs["c19"].append(("C19/answers-differ-from-a-fresh-block-after-history",
+                                           "after the history IterateSATGen(n=3) returns %s on the used block and %s on a block built from fresh objects (peer %s)"
+                                           % (json.dumps(proj(r_used))[:300], json.dumps(proj(r_twin))[:300], case["knobs"]["peer"])))
+            except (common.InnerTimeout, W.HarnessCap):
+                pass
+            except Exception:   # noqa: a constructor or call failing here is C08's business
+                pass
         obs["base"] = common.result_base(w, key=str(tuple(o.split(":")[0] for o in obs["ops"])),
                                          nontrivial=obs["synth_ok"] >= 2 and obs["other_ops"] >= 1,
                                          summary={"design": dast.describe(ast), "ops": obs["ops"], "faults": case.get("faults"),
